@@ -43,14 +43,19 @@ pub fn cases_cmd(args: &[String]) {
                 for _ in 0..n {
                     let mut r = rng.fork();
                     let (u, p) = gen_universe(&mut r, &g);
+                    let gid = id();
                     let mk = |u: &Universe, cfg: Cfg, tag: &str, i: u64| Case {
                         id: i,
                         profile: format!("{prof}{tag}"),
                         u: u.clone(),
                         ps: vec![p.clone()],
-                        cfg,
+                        cfg: Cfg {
+                            group: gid,
+                            same: if i == gid { String::new() } else { "verdict".into() },
+                            ..cfg
+                        },
                     };
-                    emit(&mut out, &mk(&u, base_cfg.clone(), "", id()));
+                    emit(&mut out, &mk(&u, base_cfg.clone(), "", gid));
                     if has("hints") {
                         for m in ["none", "all", "some"] {
                             let uh = with_hints(&mut r, &u, m);
